@@ -12,6 +12,8 @@ VERUS_UNITS = {
     'complex-parser': dict(unit='complex-parser', rlimit=30),
     'complex-ast': dict(unit='complex-ast', rlimit=30),
     'decimal-ast': dict(unit='decimal-ast', rlimit=30, multiple_errors=40),
+    'i64-tok': dict(unit='i64-tok', rlimit=30), 'f64-tok': dict(unit='f64-tok', rlimit=30), 'number-tok': dict(unit='number-tok', rlimit=30),
+    'decimal-tok': dict(unit='decimal-tok', rlimit=30), 'complex-tok': dict(unit='complex-tok', rlimit=30),
 }
 
 # name -> dict(mods=[(module file the harness becomes a child of, harness file, module name)], flags, timeout, jobs)
@@ -28,8 +30,16 @@ KANI_GROUPS = {
 
 PARSERS = ['i64-parser', 'f64-parser', 'number-parser', 'decimal-parser', 'complex-parser']
 
+TOKS = ['i64-tok', 'f64-tok', 'number-tok', 'decimal-tok', 'complex-tok']
+
+TOK_ASSUME = [
+    'A-std-iter (T9, T10): assumed contracts of Peekable<Chars>::peek / next, char::is_ascii_digit, and of the two adapter idioms clone().take(n).collect::<String>() and by_ref().take(n).for_each(drop); Tokenizer::new is chars().peekable()',
+    'A-std-parse (T16): str::parse::<f64|i64> and Decimal::from_str are uninterpreted partial functions of the text',
+    'T17: `impl Iterator for Tokenizer` is read as an inherent impl (the body of next is unchanged)',
+]
+
 PARSER_ASSUME = [
-    'A-tokenizer-shape: the token sequence handed to the parser ends with Eof and has no Eof before that (obligation of the tokenizer units)',
+    'tokenizer interface: next() yields Eof exactly when the input is exhausted and then for ever (proved: postcondition of Tokenizer::next in the units *-tok); the parser units use it as the contract of an abstract token source',
     'T2: derived Clone/PartialEq of Token, NativeFunction, Node are structural; derived PartialOrd of OperatorCategory follows declaration order (the latter also proved by Kani on the real derive)',
     'T6 (fn-pointer parameter specialised per call site), T7 (format! dropped), T5 extraction rewrites',
     'arm splitting: match arms are verified in separate runs, every other arm pruned with assume(false); the runs together cover all arms',
@@ -49,13 +59,13 @@ AST_ASSUME = [
     'A-64bit: usize is 64 bits wide',
     'T1 (error type), T2 (derived Clone of Node is structural), T5, T12, T13, T14 extraction rewrites (DESIGN 4.2)',
 ]
-ALL_V = ['i64-ast', 'decimal-ast', 'complex-ast'] + PARSERS
+ALL_V = ['i64-ast', 'decimal-ast', 'complex-ast'] + PARSERS + TOKS
 
 PLAN = {
     'C01': dict(verus=ALL_V, kani=['i64-ast', 'f64-ast', 'number-ast', 'number-l4'], level='proof', assumptions=AST_ASSUME + PARSER_ASSUME + ['A-stack, A-alloc: stack exhaustion and allocation failure are not modelled'],
-                unclaimed=['tokenizers (L1)', 'eval of decimal / complex (L3)', 'aggregates of eval_f64 / eval_number with two or more arguments (beyond CBMC)', 'eval_* glue (L4)']),
+                unclaimed=['aggregates of eval_f64 / eval_number with two or more arguments (beyond CBMC)', 'eval_* glue (L4)']),
     'C02': dict(verus=ALL_V, kani=['f64-ast', 'number-ast'], level='proof', assumptions=AST_ASSUME + PARSER_ASSUME,
-                unclaimed=['tokenizers (L1)', 'value-dependent loops of eval_decimal (factorial, Lambert W, ilog)',
+                unclaimed=[
                            'the global bound 4096 + 256*len is derived on paper from the per-function measures, not machine-checked']),
     'C10': dict(verus=ALL_V, kani=['i64-ast', 'f64-ast', 'number-ast'], level='proof', assumptions=AST_ASSUME + PARSER_ASSUME,
                 unclaimed=['function names / aliases (tokenizer keyword arms)', 'numerical accuracy of libm-backed functions, gamma, Lambert W',
@@ -106,7 +116,8 @@ PLAN = {
         ],
         unclaimed=[],
     ),
-    'C03': dict(verus=PARSERS, level='proof', assumptions=PARSER_ASSUME, unclaimed=[]),
+    'C03': dict(verus=PARSERS + TOKS, level='proof', assumptions=PARSER_ASSUME + TOK_ASSUME,
+                unclaimed=['the keyword table of the tokenizers (a function name is recognised only before `(`, foreign names yield None): keyword arms are verified for panic-freedom and progress only']),
     'C04': dict(verus=PARSERS, kani=['tables'], level='proof', assumptions=PARSER_ASSUME, unclaimed=[]),
     'C12': dict(verus=PARSERS, level='proof', assumptions=PARSER_ASSUME, unclaimed=[]),
 }
